@@ -227,7 +227,9 @@ def judge_history(w, states):
         if 'panic' in st: return v + [('panic:%s:%s' % (op['op'], classify_panic(st['panic'])), '%s panics: %s (history %r on %r)' % (op['op'], st['panic'][:150], w['ops'][:i+1], prev))]
         pi = op['para']; mp = model[pi]; k = op['key']
         spans, regions = field_spans(prev)
-        mine = [s for s in spans if s[3] == pi]
+        # a paragraph emptied by remove() still exists in the tree but not in the text: text paragraphs are the non-empty model paragraphs
+        tpi = sum(1 for q in model[:pi] if q)
+        mine = [s for s in spans if s[3] == tpi] if mp else []
         T1 = st['text']
         def replaced(a, b):      # T1 == prev[:a] + X + prev[b:]
             return len(T1) >= a + (len(prev) - b) and T1.startswith(prev[:a]) and (b == len(prev) or T1.endswith(prev[b:]))
@@ -241,9 +243,9 @@ def judge_history(w, states):
             if hit is not None and len(mine) == len(mp): local = replaced(mine[hit][0], mine[hit][1])
             elif hit is None and op['op'] == 'rename': local = (T1 == prev)
             elif hit is None:
-                mp.append([k, op['value']]); local = appended(prev, T1, mine, regions, pi)
+                mp.append([k, op['value']]); local = appended(prev, T1, mine, regions, tpi)
         elif op['op'] == 'insert':
-            mp.append([k, op['value']]); local = appended(prev, T1, mine, regions, pi)
+            mp.append([k, op['value']]); local = appended(prev, T1, mine, regions, tpi)
         else:
             keep = [m for m in mp if m[0] != k]
             if len(mine) == len(mp):
